@@ -65,12 +65,15 @@ inline void build(Node &n, int &next_port, int &next_node)
         if(p.child) {
             build(*p.child, next_port, next_node);
             Node *ch = p.child.get();
+            int comps = 0; for(char c : p.pat.path) if(c == '/') ++comps;   // a name like "u#3/v#2/c/" spans 3 components
             v.push_back(rtosc::Port{p.name.c_str(), "", ch->built.get(),
-                [id, ch](const char *msg, rtosc::RtData &d) {
+                [id, ch, comps](const char *msg, rtosc::RtData &d) {
                     note(SUBTREE, id, msg, d);
                     d.obj = &ch->obj_tag;
-                    while(*msg && *msg != '/') ++msg;          // SNIP, as in port-sugar.h
-                    msg = *msg ? msg + 1 : msg;
+                    for(int k = 0; k < comps; ++k) {
+                        while(*msg && *msg != '/') ++msg;      // SNIP, as in port-sugar.h
+                        msg = *msg ? msg + 1 : msg;
+                    }
                     ch->built->dispatch(msg, d);
                 }});
         } else {
@@ -92,7 +95,9 @@ inline void expect(Node &n, const std::string &addr, const std::string &types, c
         if(v == refmatch::MUST_NOT) continue;
         if(!p.child) { out.push_back(Exp{LEAF, p.id, &n.obj_tag, loc_prefix + addr, v == refmatch::DONT_CARE}); continue; }
         out.push_back(Exp{SUBTREE, p.id, &n.obj_tag, "", v == refmatch::DONT_CARE});
-        size_t sl = addr.find('/');
+        int comps = 0; for(char c : p.pat.path) if(c == '/') ++comps;
+        size_t sl = std::string::npos, from = 0;
+        for(int k = 0; k < comps; ++k) { sl = addr.find('/', from); if(sl == std::string::npos) break; from = sl + 1; }
         std::string rest = sl == std::string::npos ? std::string() : addr.substr(sl + 1);
         std::string pre = loc_prefix + (sl == std::string::npos ? addr : addr.substr(0, sl + 1));
         expect(*p.child, rest, types, pre, out);
